@@ -82,6 +82,8 @@ def replay(d1, x, d2, frag=False):
     try:
         got = native_blocks(text)
     except Exception as e:  # noqa
+        from pysym.harness import guard_repo_exception
+        guard_repo_exception(e)
         return {"input": text, "observed": f"raised {type(e).__name__}: {e}", "expected": "blocks"}
     b1, b2 = ([] if frag else native_blocks(d1)), native_blocks(d2)
     g = [describe(b, False) for b in got]
